@@ -265,12 +265,16 @@ class YAMLTrace(Trace_):
 
         if target_log != (self.nlogs - 1):  # for zero based index, target_log == nlogs means we're out of logs
             self.active_logfile = "{}-log_{:d}.yaml".format(self.unique_name, self.nlogs)
+            # write the new page (truncating a leftover of an interrupted run) before the main log names it,
+            # so that the log on disk is loadable after a crash between the two file operations
+            with open(os.path.join(self.location, self.active_logfile), "w", encoding='utf-8') as f:
+                yaml.safe_dump([snapshot], f, explicit_start=False)
             self.logfiles.append(self.active_logfile)
             self.nlogs += 1
             self.write_main_log()
-
-        with open(os.path.join(self.location, self.active_logfile), "a", encoding='utf-8') as f:
-            yaml.safe_dump([snapshot], f, explicit_start=False)
+        else:
+            with open(os.path.join(self.location, self.active_logfile), "a", encoding='utf-8') as f:
+                yaml.safe_dump([snapshot], f, explicit_start=False)
 
         self.logsize += 1
 
